@@ -16,7 +16,8 @@ package facts
 // # Supported subset
 //
 // Types         int, time.Duration → Int;  bool → Bool;  byte/uint8 → UInt8;
-//               []byte, string → Bytes;  [][]byte, []string → List Bytes;  error → Go.Error.
+//               []byte, string → Bytes;  [][]byte, []string → List Bytes;  error → Go.Error;
+//               [][][]byte → List (List Bytes) (only as the operand of `range`).
 //               (machine-integer overflow and the nil/empty distinction of slices are not modelled)
 // Statements    x := e, x = e, x op= e, x++/x-- (each a shadowing `let`); `var x T`;
 //               a, b := f(…) / a, b = e1, e2;  _ = e;
@@ -230,6 +231,8 @@ func leanTy(ty string) string {
 		return "Bytes"
 	case "list":
 		return "List Bytes"
+	case "list2":
+		return "List (List Bytes)"
 	case "error":
 		return "Go.Error"
 	case "unit":
@@ -372,6 +375,8 @@ func goTypeOf(e ast.Expr) string {
 			return "bytes"
 		case "bytes":
 			return "list"
+		case "list":
+			return "list2"
 		}
 	}
 	return ""
@@ -1910,7 +1915,7 @@ func (t *bodyTr) rangeStmt(x *ast.RangeStmt, sc bscope, ctx bctx, ind string, re
 		return bad("range_assign")
 	}
 	xs := t.expr(x.X, sc, "")
-	el := map[string]string{"bytes": "byte", "list": "bytes"}[xs.Ty]
+	el := map[string]string{"bytes": "byte", "list": "bytes", "list2": "list"}[xs.Ty]
 	if el == "" {
 		return bad("range_operand")
 	}
